@@ -96,14 +96,14 @@ static void nd_indices(const unsigned idx[16], const char *what) {
 static long find(const uint8_t *h, size_t hn, const uint8_t *n, size_t nn, size_t *where) { long c = 0; for (size_t i = 0; i + nn <= hn; i++) if (h[i] == n[0] && !memcmp(h + i, n, nn)) { if (!c && where) *where = i; c++; } return c; }
 
 static uint64_t BYTES_SCANNED; static long CELLS, CALLS;
-static char CELLS_SEEN[64][48]; static int NCELLS_SEEN;
+static char CELLS_SEEN[80][48]; static int NCELLS_SEEN;
 static struct res *R; static const char *BUILD = "?";
 static int SEEDNO;
 
 static void scan(const char *cell) {
     CALLS++;
     int seen = 0; for (int i = 0; i < NCELLS_SEEN; i++) if (!strcmp(CELLS_SEEN[i], cell)) seen = 1;
-    if (!seen && NCELLS_SEEN < 64) strcpy(CELLS_SEEN[NCELLS_SEEN++], cell);
+    if (!seen && NCELLS_SEEN < 80) strcpy(CELLS_SEEN[NCELLS_SEEN++], cell);
     R->cases++; R->calls++;
     static uint8_t *sec; size_t ss = sec_size(); if (!sec) sec = malloc(ss + 16); sec_save(sec);
     BYTES_SCANNED += STK + ss;
@@ -164,6 +164,14 @@ int main(int argc, char **argv) {
         if (WANT("store/ok")) call(F_STORE, "ok", -1);
         if (WANT("keygen/ok")) call(F_KEYGEN, "ok", -1);
         if (WANT("getters/ok")) call(F_GETTERS, "ok", -1);
+        /* the caller's buffers at odd addresses (byte buffers have no alignment): a staging copy made for alignment's sake is a temporary like any other */
+        { uint8_t *ks = J.storage, *kk = J.key; char *ko = J.out; static uint8_t odd_st[48], odd_key[48]; static char odd_out[2100];
+          J.storage = odd_st + 1; J.key = odd_key + 3; J.out = odd_out + 1;
+          if (WANT("store/unaligned-buffer")) call(F_STORE, "unaligned-buffer", -1);
+          if (WANT("keygen/unaligned-key")) call(F_KEYGEN, "unaligned-key", -1);
+          J.lang = 0; if (WANT("encode/unaligned-output")) call(F_ENCODE, "unaligned-output", -1);
+          polyseed_store(seed, J.storage); J.S2 = NULL; if (WANT("load/unaligned-buffer")) { call(F_LOAD, "unaligned-buffer", POLYSEED_OK); if (J.S2) { polyseed_free(J.S2); J.S2 = NULL; } }
+          J.storage = ks; J.key = kk; J.out = ko; }
         uint8_t good[32]; polyseed_store(seed, good);
         /* ---- load */
         struct { const char *name; int st; int byte; uint8_t xorv; int fail; unsigned mask; } LD[] = {
